@@ -14,6 +14,7 @@ RULE = (
     "request Deferred; at the end everything is closed and every Deferred must have fired exactly once. A second machine does the "
     "same for KafkaBootstrapProtocol. non-trivial = >= 2 requests outstanding together with answers out of issue order, a late "
     "reply to a cancelled request, a split frame or a drop with mixed requests; distinct = distinct trace."
+    ' A response callback may close the broker client from inside the delivery (the model learns of the close at that instant; close() must not raise there, every other pending request fails, nothing hangs).'
 )
 ASSUMPTIONS = [
     "frames shorter than 4 bytes are not generated (the property gives them no meaning)",
